@@ -13,6 +13,7 @@ import (
 
 	"github.com/ProtonMail/gluon/verif/pkg/ev"
 	"github.com/ProtonMail/gluon/verif/pkg/tlc"
+	"github.com/ProtonMail/gluon/verif/pkg/wire"
 )
 
 // SimCfg is one TLC simulation run whose behaviours are replayed.
@@ -122,6 +123,26 @@ func ReplayAll(run *ev.Run, plan Plan, traces []*Trace, source string) {
 		}
 		rep := rig.Run(t)
 		rig.Close()
+		if rep.Drift != nil && (rep.Drift.Kind == "connection" || rep.Drift.Kind == "deliver") && strings.Contains(rep.Drift.Detail, "timeout=true") || (rep.Drift != nil && rep.Drift.Kind == "deliver") {
+			// No answer within the client's time-out: a hang - or a machine that is too busy. The behaviour is run once more,
+			// alone on a fresh server and with a six times longer time-out; only what happens then counts.
+			run.Add("behaviours_rerun_after_a_timeout", 1)
+			pool.Close()
+			old := wire.DefaultTimeout
+			wire.DefaultTimeout = 6 * old
+			p2, err := NewPool(g, opt)
+			if err != nil {
+				wire.DefaultTimeout = old
+				run.Machinery("cannot start a server: %v", err)
+				return
+			}
+			pool = p2
+			if rig2, err := pool.NewRig(); err == nil {
+				rep = rig2.Run(t)
+				rig2.Close()
+			}
+			wire.DefaultTimeout = old
+		}
 		run.Eval(t.Sig(), t.NonTrivial())
 		run.Add("steps_replayed", int64(rep.Steps))
 		for i := 0; i < rep.Steps && i < len(t.Steps); i++ {
